@@ -45,7 +45,7 @@ GraphsSmall(k) == CASE k = 1 -> {[re |-> {}, ln |-> {}]}
 
 (* ---------------- interaction catalogue ---------------- *)
 AllSecs == {"bonds", "constraints", "pairs", "exclusions", "angles", "dihedrals", "impropers", "virtual_sites2", "virtual_sitesn",
-            "position_restraints"}
+            "position_restraints", "virtual_sites3", "dihedral_restraints"}
 Guards == {NoGuard, [k |-> "ifdef", tag |-> "F"], [k |-> "ifndef", tag |-> "F"], [k |-> "ifdef", tag |-> "G"]}
 Par(s, k) == CASE s = "bonds" -> (IF k = 1 THEN <<"1", "0.30", "1000">> ELSE <<"1", "0.35", "2000.5">>)
                [] s = "constraints" -> (IF k = 1 THEN <<"1", "0.31">> ELSE <<"1", "0.33">>)
@@ -56,6 +56,9 @@ Par(s, k) == CASE s = "bonds" -> (IF k = 1 THEN <<"1", "0.30", "1000">> ELSE <<"
                [] s = "impropers" -> (IF k = 1 THEN <<"2", "0", "50">> ELSE <<"2", "35.3", "100">>)
                [] s = "virtual_sites2" -> (IF k = 1 THEN <<"1", "0.5">> ELSE <<"1", "0.25">>)
                [] s = "virtual_sitesn" -> (IF k = 1 THEN <<"1">> ELSE <<"2">>)
+               [] s = "virtual_sites3" -> (IF k = 1 THEN <<"1", "0.3", "0.3">> ELSE <<"4", "0.1", "0.2", "-1.5">>)
+               [] s = "angle_restraints_z" -> <<"1", "30", "100", "1">>
+               [] s = "dihedral_restraints" -> (IF k = 1 THEN <<"1", "120", "0", "50">> ELSE <<"1", "60", "10", "25.5">>)
                [] OTHER -> (IF k = 1 THEN <<"1", "1000", "1000", "1000">> ELSE <<"1", "500", "500", "0">>)
 \* atom listings per section for a molecule of n atoms, both directions where the writer may turn them round
 Tuples(s, n) ==
@@ -68,6 +71,8 @@ Tuples(s, n) ==
       [] s = "impropers" -> {t \in {<<2, 1, 3, 4>>, <<4, 3, 1, 2>>} : n >= 4}
       [] s = "virtual_sites2" -> {t \in {<<3, 1, 2>>, <<1, 3, 2>>} : n >= 3}
       [] s = "virtual_sitesn" -> {t \in {<<3, 1, 2>>} : n >= 3} \cup {t \in {<<4, 3, 1, 2>>} : n >= 4}
+      [] s = "virtual_sites3" -> {t \in {<<4, 1, 2, 3>>} : n >= 4}
+      [] s = "dihedral_restraints" -> {t \in {<<4, 3, 2, 1>>} : n >= 4}
       [] OTHER -> {t \in {<<1>>, <<2>>, <<4>>} : t[1] <= n}
 \* the first listing(s) of each section, for the families that combine interactions
 Tuples1(s, n) ==
@@ -80,6 +85,8 @@ Tuples1(s, n) ==
       [] s = "impropers" -> {t \in {<<2, 1, 3, 4>>} : n >= 4}
       [] s = "virtual_sites2" -> {t \in {<<3, 1, 2>>} : n >= 3}
       [] s = "virtual_sitesn" -> {t \in {<<3, 1, 2>>} : n >= 3}
+      [] s = "virtual_sites3" -> {t \in {<<4, 1, 2, 3>>} : n >= 4}
+      [] s = "dihedral_restraints" -> {t \in {<<4, 3, 2, 1>>} : n >= 4}
       [] OTHER -> {t \in {<<1>>, <<2>>} : t[1] <= n}
 X(s, t, k, g) == [sec |-> s, atoms |-> t, par |-> Par(s, k), gk |-> g.k, gtag |-> g.tag, comment |-> IF k = 2 THEN "second form" ELSE ""]
 Cand(n) == UNION {{X(s, t, 1, g) : t \in Tuples(s, n), g \in Guards} : s \in AllSecs}
@@ -147,9 +154,13 @@ DevInit == (Pick(CoreLayouts, Fam4, GraphsOne, FALSE) \/ Pick(CoreLayouts, Fam3,
 MassOnlyPick == \E ln \in LayoutNames : \E g \in GraphsSmall(NRes(ln[1])) : mol = Mk(ln, g, 4, <<>>, TRUE)
 UnbackedPick == \E ln \in LayoutNames : \E g \in {h \in GraphsFor(NRes(ln[1])) : h.ln # {}} :
                   \E xs \in {<<>>} \cup {<<X("angles", t, 1, NoGuard)>> : t \in {u \in {<<1, 2, 3>>} : Len(ln[1]) = 3 /\ NRes(ln[1]) = 3 /\ Cardinality(g.ln) = 2}} :
-                     mol = Mk(ln, g, 1, xs, FALSE)
+                     (\A i \in DOMAIN xs : Linkable(ln[1], g, xs[i])) /\ mol = Mk(ln, g, 1, xs, FALSE)
+\* (c) an angle_restraints_z line listed with the higher atom first: the writer turns it round, which is another restraint
+ArzPick == \E ln \in {l \in LayoutNames : Len(l[1]) = 2} : \E g \in GraphsSmall(NRes(ln[1])) : \E t \in {<<2, 1>>, <<1, 2>>} :
+             mol = Mk(ln, g, 1, <<X("angle_restraints_z", t, 1, NoGuard)>>, TRUE)
 MassOnlyInit == MassOnlyPick /\ InitRest
+ArzInit == ArzPick /\ InitRest
 UnbackedInit == UnbackedPick /\ InitRest
-FindInit == (MassOnlyPick \/ UnbackedPick) /\ InitRest
+FindInit == (MassOnlyPick \/ UnbackedPick \/ ArzPick) /\ InitRest
 XNext == FALSE /\ UNCHANGED vars
 =============================================================================
